@@ -353,6 +353,7 @@ Section E2E.
     Variable hive : bool.
     Variable pm : list (str * kind).
     Variable names : list str.          (* partition column names (writer) *)
+    Variable pname : nat -> str.        (* file names inside a directory: part.i.parquet for the writer, any names for lists of files *)
     Variable rnames : list str.         (* names the reader gives to the levels *)
     Hypothesis rn_nodup : NoDup rnames.
     Hypothesis rn_nonnil : rnames <> [].
@@ -374,10 +375,10 @@ Section E2E.
     Hypothesis Hd2 : forall key, key_ok key ->
       dir_path hive names key <> [] /\ length (split_on c_slash (dir_path hive names key)) = length names.
     Hypothesis Hd3 : forall key i, key_ok key ->
-      strip_tail (rel_path hive names key (part_name i)) = dir_path hive names key /\
-      rel_path hive names key (part_name i) <> [].
+      strip_tail (rel_path hive names key (pname i)) = dir_path hive names key /\
+      rel_path hive names key (pname i) <> [].
     Hypothesis Hd4 : forall key i, key_ok key ->
-      exists tail, row_partitions hive (rel_path hive names key (part_name i)) = map mk2 (hits_of key) ++ tail.
+      exists tail, row_partitions hive (rel_path hive names key (pname i)) = map mk2 (hits_of key) ++ tail.
     Hypothesis Hd5 : hive = false -> forall key, key_ok key -> hive_hits (dir_path hive names key) = None.
 
     Definition Lv (n : str) (x : value) : Prop := exists v, Pv n v /\ x = rv v.
@@ -545,7 +546,7 @@ Section E2E.
       map fst cats = rnames.
 
     Lemma read_cell cats key i k vs : key_ok key -> cats_ok cats key -> In (k, vs) cats ->
-      row_cell hive pm (rel_path hive names key (part_name i)) (k, vs) = Some (k, cellval key k).
+      row_cell hive pm (rel_path hive names key (pname i)) (k, vs) = Some (k, cellval key k).
     Proof.
       intros Hkey [Hc1 [Hc2 Hc3]] Hin. unfold row_cell, Partition.row_value. cbn [fst snd].
       destruct (Hd4 key i Hkey) as [tail Et]. rewrite Et.
@@ -576,7 +577,7 @@ Section E2E.
     Qed.
 
     Lemma read_cells cats key i : key_ok key -> cats_ok cats key ->
-      row_cells hive pm cats (rel_path hive names key (part_name i)) = Some (combine rnames (map rv key)).
+      row_cells hive pm cats (rel_path hive names key (pname i)) = Some (combine rnames (map rv key)).
     Proof.
       intros Hkey Hco. unfold Partition.row_cells.
       rewrite (all_some_map_ext _ (fun c => (fst c, cellval key (fst c)))).
@@ -589,7 +590,7 @@ Section E2E.
 
     (* ------------------------------------------------------------ the whole dataset *)
     Definition file_ok (f : str * list row) : Prop :=
-      exists key i, key_ok key /\ fst f = rel_path hive names key (part_name i) /\
+      exists key i, key_ok key /\ fst f = rel_path hive names key (pname i) /\
                     forall r, In r (snd f) -> key_of r = key.
 
     Lemma exists_keys (dirs : list str) :
@@ -678,13 +679,13 @@ Section E2E.
     Lemma cats_of_dataset (files : list (str * list row)) : files <> [] -> Forall file_ok files ->
       exists cats, paths_to_cats pm0 (map fst files) (ord (dedup_str (map strip_tail (map fst files))))
                    = Ok (if hive then Hive else Drill, cats) /\
-        forall key i, key_ok key -> In (rel_path hive names key (part_name i)) (map fst files) -> cats_ok cats key.
+        forall key i, key_ok key -> In (rel_path hive names key (pname i)) (map fst files) -> cats_ok cats key.
     Proof.
       intros Hne Hf. rewrite Forall_forall in Hf.
       set (paths := map fst files). set (dirs := ord (dedup_str (map strip_tail paths))).
       assert (Hdirs : forall d, In d dirs <-> exists p, In p paths /\ d = strip_tail p).
       { intros d. unfold dirs. rewrite Hord, mem_dedup, in_map_iff. split; intros [p [H1 H2]]; exists p; split; auto. }
-      assert (Hpaths : forall p, In p paths -> exists key i, key_ok key /\ p = rel_path hive names key (part_name i)).
+      assert (Hpaths : forall p, In p paths -> exists key i, key_ok key /\ p = rel_path hive names key (pname i)).
       { intros p Hp. unfold paths in Hp. apply in_map_iff in Hp. destruct Hp as [f [<- Hin]].
         destruct (Hf f Hin) as [key [i [H1 [H2 _]]]]. now exists key, i. }
       assert (Hdk : forall d, In d dirs -> exists key, key_ok key /\ d = dir_path hive names key).
@@ -714,11 +715,11 @@ Section E2E.
       rewrite Edirs. rewrite combine_map_self.
       destruct (fold_dirs keys Hkeys st0 Inv0 (or_introl eq_refl)) as [st' [Efold [HI [_ [Hseen Hkeys']]]]].
       assert (Hfst : map fst (st_cats st') = rnames) by (destruct Hkeys' as [H|[H _]]; [exact H|congruence]).
-      assert (Hcats : forall key i, key_ok key -> In (rel_path hive names key (part_name i)) paths -> cats_ok (final_cats st') key).
+      assert (Hcats : forall key i, key_ok key -> In (rel_path hive names key (pname i)) paths -> cats_ok (final_cats st') key).
       { intros key i Hk Hin. apply final_cats_ok; [exact HI|exact Hfst|].
         intros kx Hkx.
         assert (Hdin : In (dir_path hive names key) dirs).
-        { apply Hdirs. exists (rel_path hive names key (part_name i)). split; [exact Hin|]. symmetry. apply (Hd3 key i Hk). }
+        { apply Hdirs. exists (rel_path hive names key (pname i)). split; [exact Hin|]. symmetry. apply (Hd3 key i Hk). }
         rewrite Edirs in Hdin. apply in_map_iff in Hdin. destruct Hdin as [key' [Edp Hk'in]].
         assert (Hk' : key_ok key') by (rewrite Forall_forall in Hkeys; now apply Hkeys).
         (* the two keys have the same directory, hence the same hits *)
@@ -748,7 +749,7 @@ Section E2E.
         rewrite (all_some_map_ext _ (fun f => map (fun r => (combine rnames (map rv (key_of r)), snd r)) (snd f))).
         - cbn [option_map]. f_equal. rewrite concat_map, map_map. reflexivity.
         - intros f Hin. rewrite Forall_forall in Hf. destruct (Hf f Hin) as [key [i [Hk [Ep Hr]]]].
-          assert (Hpin : In (rel_path hive names key (part_name i)) (map fst files)) by (rewrite <- Ep; now apply in_map).
+          assert (Hpin : In (rel_path hive names key (pname i)) (map fst files)) by (rewrite <- Ep; now apply in_map).
           destruct f as [p rs]. cbn [fst snd] in *. subst p. rewrite (read_cells cats key i Hk).
           + cbn [option_map]. f_equal. apply map_ext_in. intros r Hr'. now rewrite (Hr r Hr').
           + apply (Hcats key i Hk). exact Hpin. }
@@ -759,6 +760,7 @@ Section E2E.
 
     (* ------------------------------------------------------------ writer and reader together *)
     Hypothesis He : forall n a b, Pv n a -> Pv n b -> veqb a b = true -> a = b.
+    Hypothesis Hpw : forall i, pname i = part_name i.
 
     Lemma keys_eqb_eq a b : key_ok a -> key_ok b -> keys_eqb a b = true -> a = b.
     Proof.
@@ -776,12 +778,12 @@ Section E2E.
 
     Lemma written_files_ok chunks : frame_ok (concat chunks) ->
       forall f, In f (write_model hive names chunks) ->
-        exists key i, key_ok key /\ fst f = rel_path hive names key (part_name i) /\
+        exists key i, key_ok key /\ fst f = rel_path hive names key (pname i) /\
                       forall r, In r (snd f) -> In r (concat chunks) /\ nonnull r = true /\ key_of r = key.
     Proof.
       clear Hpm.
       intros Hfr f Hin. unfold Partition.write_model in Hin.
-      destruct (write_model_files hive names chunks O f Hin) as [i [chunk [k [Hc1 [Hg Hp]]]]].
+      destruct (write_model_files hive names chunks O f Hin) as [i [chunk [k [Hc1 [Hg Hp]]]]]. rewrite <- Hpw in Hp.
       assert (Hi : incl chunk (concat chunks)).
       { intros x Hx. apply in_concat. exists chunk. split; assumption. }
       destruct (group_by_G (concat chunks) chunk Hi k (snd f) Hg) as [[r0 [Hr0 Ek]] Hall].
@@ -796,7 +798,7 @@ Section E2E.
     Theorem placement chunks : frame_ok (concat chunks) ->
       Permutation (concat (map snd (write_model hive names chunks))) (filter nonnull (concat chunks)) /\
       forall f r, In f (write_model hive names chunks) -> In r (snd f) ->
-        nonnull r = true /\ exists i, fst f = rel_path hive names (key_of r) (part_name i).
+        nonnull r = true /\ exists i, fst f = rel_path hive names (key_of r) (pname i).
     Proof.
       clear Hpm.
       intros Hfr. split; [apply write_model_perm|].
@@ -927,32 +929,35 @@ Section E2E.
       - rewrite dir_segments_combine, combine_map_r, map_map. reflexivity.
     Qed.
 
+    Section HP.
+    Variable pname : nat -> str.
+    Hypothesis Hpn : forall i, clean (pname i) /\ pname i <> [].
+
     Lemma hive_paths key i : key_ok names Pv_hive key ->
       let segs := map hseg (combine names (map (show true) key)) in
       dir_path true names key = join_with c_slash segs /\ dir_path true names key <> [] /\
       split_on c_slash (dir_path true names key) = segs /\
-      split_on c_slash (rel_path true names key (part_name i)) = segs ++ [part_name i] /\
-      strip_tail (rel_path true names key (part_name i)) = dir_path true names key /\
-      rel_path true names key (part_name i) <> [] /\ length segs = length names.
+      split_on c_slash (rel_path true names key (pname i)) = segs ++ [pname i] /\
+      strip_tail (rel_path true names key (pname i)) = dir_path true names key /\
+      rel_path true names key (pname i) <> [] /\ length segs = length names.
     Proof.
       intros Hk segs. destruct (hive_nx key Hk) as [Hnx Eseg].
       destruct (hsegs_facts _ Hnx) as [Hcl _].
       assert (Hlen : length segs = length names).
       { unfold segs. rewrite map_length, combine_length, map_length, <- (F2_length _ _ _ Hk). apply Nat.min_id. }
       assert (Hn : segs <> []) by (intros E; rewrite E in Hlen; destruct names; [congruence|discriminate]).
-      destruct (part_name_clean i) as [Hpc Hpn].
-      destruct (paths_generic segs (part_name i) Hn Hcl Hpc Hpn) as [H1 [H2 [H3 [H4 [H5 H6]]]]].
+      destruct (Hpn i) as [Hpc Hpn'].
+      destruct (paths_generic segs (pname i) Hn Hcl Hpc Hpn') as [H1 [H2 [H3 [H4 [H5 H6]]]]].
       unfold Partition.rel_path, Partition.dir_path. rewrite Eseg. fold segs. repeat split; assumption.
     Qed.
 
-    Theorem hive_e2e chunks :
-      frame_ok names Pv_hive (concat chunks) ->
-      exists sch out,
-        read_model pm ord (write_model true names chunks) = Some (sch, out) /\
-        Permutation out (map (expect names unwrap) (filter nonnull (concat chunks))) /\
-        (filter nonnull (concat chunks) <> [] -> sch = Hive).
+    (* the reader half alone, for ANY file names: a list of files laid out as key=value directories *)
+    Theorem hive_read_layout (files : list (str * list row)) : files <> [] ->
+      Forall (file_ok true names pname names Pv_hive) files ->
+      read_model pm ord files
+      = Some (Hive, map (fun r => (combine names (map unwrap (key_of r)), snd r)) (concat (map snd files))).
     Proof.
-      apply (e2e true pm names names names_nodup Pv_hive unwrap text_hive).
+      apply (read_generic true pm names pname names names_nodup Pv_hive unwrap text_hive).
       - intros n v [k [Ek [_ [_ Hrt]]]]. rewrite Ek. exact Hrt.
       - intros n v [k [Ek [Hwf _]]] Hs. unfold text_hive. rewrite Ek.
         destruct k, v; cbn in Hwf, Hs; try tauto; try discriminate; auto.
@@ -976,8 +981,43 @@ Section E2E.
       - discriminate.
       - exact Hord.
       - reflexivity.
+    Qed.
+    End HP.
+
+    Theorem hive_e2e chunks :
+      frame_ok names Pv_hive (concat chunks) ->
+      exists sch out,
+        read_model pm ord (write_model true names chunks) = Some (sch, out) /\
+        Permutation out (map (expect names unwrap) (filter nonnull (concat chunks))) /\
+        (filter nonnull (concat chunks) <> [] -> sch = Hive).
+    Proof.
+      apply (e2e true pm names part_name names names_nodup Pv_hive unwrap text_hive).
+      - intros n v [k [Ek [_ [_ Hrt]]]]. rewrite Ek. exact Hrt.
+      - intros n v [k [Ek [Hwf _]]] Hs. unfold text_hive. rewrite Ek.
+        destruct k, v; cbn in Hwf, Hs; try tauto; try discriminate; auto.
+      - intros n v Ht [k [Ek [Hwf _]]]. unfold text_hive in Ht. rewrite Ek in Ht.
+        destruct Ht as [[= ->]|[= ->]]; destruct v as [| | | | | |l]; cbn in Hwf; try tauto; try reflexivity.
+        destruct l; try tauto; reflexivity.
+      - intros n v v' [k [Ek [Hwf _]]] [k' [Ek' [Hwf' _]]] H. rewrite Ek in Ek'. injection Ek' as <-.
+        apply (veqb_of_kind_eq F T D feqb teqb deqb f_eq_Z show_float parse_float show_time_iso show_time_str parse_time_np parse_time_fmt parse_time_pd parse_delta feqb_spec teqb_spec k); [now apply wf_of_kind|now apply wf_of_kind|exact H].
+      - intros key Hk. destruct (hive_paths part_name part_name_clean key O Hk) as [_ [_ [H3 _]]].
+        destruct (hive_nx key Hk) as [Hnx _]. destruct (hsegs_facts _ Hnx) as [_ [F2 [F3 _]]].
+        unfold Partition.path_hits, Partition.hive_hits. cbn [fst]. rewrite H3, F2.
+        destruct (map hseg (combine names (map (show true) key))) eqn:E.
+        + exfalso. destruct (hive_paths part_name part_name_clean key O Hk) as [_ [_ [_ [_ [_ [_ H7]]]]]]. rewrite E in H7.
+          destruct names; [congruence|discriminate].
+        + rewrite F3. reflexivity.
+      - intros key Hk. destruct (hive_paths part_name part_name_clean key O Hk) as [_ [H2 [H3 [_ [_ [_ H7]]]]]]. split; [exact H2|]. now rewrite H3.
+      - intros key i Hk. destruct (hive_paths part_name part_name_clean key i Hk) as [_ [_ [_ [_ [H5 [H6 _]]]]]]. now split.
+      - intros key i Hk. destruct (hive_paths part_name part_name_clean key i Hk) as [_ [_ [_ [H4 _]]]].
+        destruct (hive_nx key Hk) as [Hnx _]. destruct (hsegs_facts _ Hnx) as [_ [_ [_ F4]]].
+        unfold Partition.row_partitions. rewrite H4, map_app, F4. eexists. reflexivity.
+      - discriminate.
+      - exact Hord.
+      - reflexivity.
       - intros n a b [k [Ek [Hwf _]]] [k' [Ek' [Hwf' _]]] H. rewrite Ek in Ek'. injection Ek' as <-.
         now apply (veqb_wf_eq k).
+      - reflexivity.
     Qed.
 
     Theorem hive_placement chunks : frame_ok names Pv_hive (concat chunks) ->
@@ -985,7 +1025,7 @@ Section E2E.
       forall f r, In f (write_model true names chunks) -> In r (snd f) ->
         nonnull r = true /\ exists i, fst f = rel_path true names (key_of r) (part_name i).
     Proof.
-      apply (placement true names names Pv_hive).
+      apply (placement true names part_name names Pv_hive); [|reflexivity].
       intros n a b [k [Ek [Hwf _]]] [k' [Ek' [Hwf' _]]] H. rewrite Ek in Ek'. injection Ek' as <-.
       now apply (veqb_wf_eq k).
     Qed.
@@ -1096,7 +1136,7 @@ Section E2E.
         Permutation out (map (expect dnames rv_drill) (filter nonnull (concat chunks))) /\
         (filter nonnull (concat chunks) <> [] -> sch = Drill).
     Proof.
-      apply (e2e false [] names dnames dnames_nodup Pv_drill rv_drill (fun n => lk n = LText)).
+      apply (e2e false [] names part_name dnames dnames_nodup Pv_drill rv_drill (fun n => lk n = LText)).
       - intros n v _. reflexivity.
       - intros n v Hv Hs. pose proof (rv_drill_cases n v Hv) as Hc. destruct (lk n); [reflexivity| |].
         + destruct Hc as [z [_ E]]. rewrite E in Hs. discriminate.
@@ -1123,6 +1163,7 @@ Section E2E.
         + destruct Hc as [s [-> _]], Hc' as [s' [-> _]]. cbn in H. destruct (str_eqb_spec s s'); [now subst|discriminate].
         + destruct Hc as [z [-> _]], Hc' as [z' [-> _]]. cbn in H. apply Z.eqb_eq in H. now subst.
         + destruct Hc as [b0 [-> _]], Hc' as [b' [-> _]]. cbn in H. apply Bool.eqb_prop in H. now subst.
+      - reflexivity.
     Qed.
 
     Theorem drill_placement chunks : frame_ok dnames Pv_drill (concat chunks) ->
@@ -1130,7 +1171,7 @@ Section E2E.
       forall f r, In f (write_model false names chunks) -> In r (snd f) ->
         nonnull r = true /\ exists i, fst f = rel_path false names (key_of r) (part_name i).
     Proof.
-      apply (placement false names dnames Pv_drill).
+      apply (placement false names part_name dnames Pv_drill); [|reflexivity].
       intros n a b Ha Hb H. pose proof (rv_drill_cases n a Ha) as Hc. pose proof (rv_drill_cases n b Hb) as Hc'.
       destruct (lk n).
       + destruct Hc as [s [-> _]], Hc' as [s' [-> _]]. cbn in H. destruct (str_eqb_spec s s'); [now subst|discriminate].
